@@ -343,12 +343,41 @@ def one_history(ctx, hid, nops):
         mid = [None, 0, 1, 2][int(rng.integers(0, 4))]
         md = None if mid is None else R.mds[mid]
         touched, exc, malformed, op = [], None, False, None
-        if r < 0.10:                                        # reinitialize_parameters
-            s.reinitialize_parameters()
-            for net in s.networks:                            # new Parameter objects, same network objects
-                pass
-            op = [0, sid, [[t for _, _, t in R.net_params(getattr(s, n))] for n in s.networks]]
-            label = "randomise(%d)" % sid
+        if r < 0.14:                                        # the parameter OBJECTS (or a whole network) are replaced
+            owners = sorted({v[2][0] for v in saved.values() if v[2][0] in R.states})
+            if owners and rng.random() < 0.75:              # prefer a model that has already been saved
+                sid = int(rng.choice(owners))
+                s = R.states[sid]
+            how = str(rng.choice(["reinitialize_parameters", "rbm.initialize_parameters", "assign nn.Parameter", "assign new network"],
+                                 p=[0.4, 0.2, 0.2, 0.2]))
+            net = str(rng.choice(s.networks))
+            rbm = getattr(s, net)
+            if how == "reinitialize_parameters":
+                s.reinitialize_parameters()
+            elif how == "rbm.initialize_parameters":
+                rbm.initialize_parameters()
+            elif how == "assign nn.Parameter":
+                pname = str(rng.choice([n for n, _ in rbm.named_parameters()]))
+                old_p = getattr(rbm, pname)
+                setattr(rbm, pname, torch.nn.Parameter(torch.tensor(rng.normal(size=tuple(old_p.shape)) + 0.2), requires_grad=False))
+            else:                                           # a whole new network object of the same class and sizes
+                new_rbm = copy.deepcopy(rbm)
+                new_rbm.initialize_parameters()
+                for _, p_ in new_rbm.named_parameters():
+                    p_.data.add_(torch.tensor(rng.normal(size=tuple(p_.shape)) * 0.3 + 0.1))
+                setattr(s, net, new_rbm)
+                T.keep.append(new_rbm)
+                R.nids[id(new_rbm)] = R.next_nid
+                R.next_nid += 1
+            ctx.count("replace:" + how)
+            if how == "assign new network":
+                # a user assignment the Store model has no operation for: the model is restarted from the real heap
+                case["ops"].append("assign_new_network(%d,%s)" % (sid, net))
+                segments.append([wire_heap(R.norm(), R.next_nid), [], []])
+                op = None
+            else:
+                op = [0, sid, [[t for _, _, t in R.net_params(getattr(s, n))] for n in s.networks]]
+                label = "%s(%d)" % (how.replace(" ", "_"), sid)
         elif r < 0.22:                                      # training: in-place stand-in, or a real fit (with ModelSaver)
             sub = rng.random()
             kind_s = KIND[type(s).__name__]
@@ -602,9 +631,92 @@ def fixed_histories(ctx):
         ctx.traces += 1
 
 
+def replace_histories(ctx):
+    """save -> the parameter objects are REPLACED -> save again with the same model object -> load / autoload.
+    The file written by the LATER save must hold the parameters the model had at that later save."""
+    import torch
+    from qucumber.nn_states import ComplexWaveFunction, DensityMatrix, PositiveWaveFunction
+    from qucumber.rbm import BinaryRBM, PurificationRBM
+    hows = ["reinitialize_parameters", "rbm.initialize_parameters", "assign nn.Parameter", "assign new network"]
+    for cls, args in ((PositiveWaveFunction, (3, 2)), (ComplexWaveFunction, (2, 3)), (DensityMatrix, (2, 3, 1))):
+        for how in hows:
+            for same_file in (True, False):
+                ctx.torch_seed()
+                s = cls(*args, gpu=False)
+                randomise_inplace(ctx, s)
+                md = {"run": 7}
+                p1 = os.path.join(ctx.scratch, "rep1_" + cls.__name__)
+                p2 = p1 if same_file else os.path.join(ctx.scratch, "rep2_" + cls.__name__)
+                case = {"history": ["save", how, "save(same model)", "load", "autoload"], "state": cls.__name__, "same_file": same_file}
+                ctx.case(case, nontrivial=True)
+                ok, _ = ctx.call("first save", case, s.save, p1, md)
+                if not ok:
+                    continue
+                net = s.networks[-1]
+                rbm = getattr(s, net)
+                if how == "reinitialize_parameters":
+                    s.reinitialize_parameters()
+                elif how == "rbm.initialize_parameters":
+                    rbm.initialize_parameters()
+                elif how == "assign nn.Parameter":
+                    for n_, p_ in list(rbm.named_parameters()):
+                        setattr(rbm, n_, torch.nn.Parameter(torch.tensor(ctx.rng.normal(size=tuple(p_.shape)) + 0.2), requires_grad=False))
+                else:
+                    new_rbm = (BinaryRBM(args[0], args[1], gpu=False) if cls is not DensityMatrix else PurificationRBM(*args, gpu=False))
+                    for _, p_ in new_rbm.named_parameters():
+                        p_.data.add_(torch.tensor(ctx.rng.normal(size=tuple(p_.shape)) * 0.3 + 0.1))
+                    setattr(s, net, new_rbm)
+                snap2 = snapshot(s)                      # what the model holds at the LATER save
+                ok, _ = ctx.call("second save after the parameter objects were replaced", case, s.save, p2, md)
+                if not ok:
+                    continue
+                d = torch.load(p2)
+                ctx.require("the file written by the later save holds the parameters the model had at that save",
+                            all(n in d and deep_eq([(k, t) for k, t in d[n].items()], snap2["nets"][n]) for n in s.networks), case)
+                t = cls(*args, gpu=False)
+                ok, _ = ctx.call("load of the later file into a compatible state", case, t.load, p2)
+                if ok:
+                    check_loaded(ctx, "load (after replace + save)", snap2, t, case, True)
+                ok, a = ctx.call("autoload of the later file", case, lambda: cls.autoload(p2, gpu=False))
+                if ok:
+                    check_loaded(ctx, "autoload (after replace + save)", snap2, a, case, True)
+                ctx.count("fixed_replace:" + how)
+                ctx.traces += 1
+
+
+def unitary_dict_histories(ctx):
+    """The loaded unitary dictionary is the SAVED one, also when the target had other / additional unitaries."""
+    from qucumber.nn_states import ComplexWaveFunction, DensityMatrix
+    from qucumber.utils import unitaries
+    for cls, args in ((ComplexWaveFunction, (2, 3)), (DensityMatrix, (2, 3, 1))):
+        for saved_custom in (False, True):
+            ctx.torch_seed()
+            d = unitaries.create_dict()
+            ud = {"X": d["X"], "Q": rand_unitary(ctx)} if saved_custom else None
+            s = cls(*args, unitary_dict=ud, gpu=False)
+            randomise_inplace(ctx, s)
+            if not saved_custom:
+                s.unitary_dict["H"] = rand_unitary(ctx)
+            t = cls(*args, gpu=False)
+            t.unitary_dict["U9"] = rand_unitary(ctx)          # a unitary the saved state does not have
+            t.unitary_dict["X"] = rand_unitary(ctx)           # and a different matrix under a shared name
+            p = os.path.join(ctx.scratch, "ud_" + cls.__name__)
+            case = {"history": ["save", "load into a state with other unitaries"], "state": cls.__name__, "saved_custom_dict": saved_custom}
+            ctx.case(case, nontrivial=True)
+            snap_s = snapshot(s)
+            ok, _ = ctx.call("save", case, s.save, p, {"k": 1})
+            ok2, _ = ctx.call("load", case, t.load, p) if ok else (False, None)
+            if ok2:
+                check_loaded(ctx, "load", snap_s, t, case, True)
+            ctx.count("fixed_unitary_dict_load")
+            ctx.traces += 1
+
+
 def run(ctx):
     trust_check(ctx)
     fixed_histories(ctx)
+    replace_histories(ctx)
+    unitary_dict_histories(ctx)
     n = 200 if ctx.thorough else 60
     maxops = 25 if ctx.thorough else 12
     for hid in range(n):
